@@ -612,5 +612,48 @@ def finding_key(case, msg):
     if head == 'unlink' and 'proxy' in msg: return 'C13:unlink-after-proxy'
     return 'C13:' + head
 
-CORPUS = []
-WITNESSES = []
+def _s(kind, pkg, **kw):
+    d = {'pkg': pkg, 'T': 300., 'P': 101325., 'price': 0.5, 'cf': {}, 'id': None, 'kind': kind}
+    d.update(kw)
+    return d
+_RX = {'a': 1., 'b': 2., 'X': 0.5}
+# minimised inputs of the defects found with this check (they must pass once the pending fixes are applied)
+CORPUS = [
+    # 1 characterization_factors given to the constructor are discarded (and so lost by pickling)
+    {'streams': [_s('S', 0, phase='l', flow=[1., 0., 2.], cf={'GWP': 1.5}, id='x1'),
+                 _s('M', 0, phases=['g', 'l'], flows={'g': [0., 4., 0.]}, cf={'GWP': 2., 'FEC': 0.25}, id='x2')],
+     'ops': [['reduce', 0], ['reduce', 1]], 'rx': _RX},
+    # 2 Stream.copy_like(one-phase MultiStream): T, P not copied, other-package flows copied by position
+    {'streams': [_s('S', 1, phase='l', flow=[0., 0., 3., 0.], id='x1'),
+                 _s('M', 0, phases=['g'], flows={'g': [1., 0., 2.]}, T=350.5, P=200000., id='x2')],
+     'ops': [['copy_like', 0, 1]], 'rx': _RX},
+    # 3 MultiStream.copy_like(Stream in a phase the target lacks): UndefinedPhase
+    {'streams': [_s('M', 0, phases=['g', 'l'], flows={'g': [1., 0., 0.], 'l': [0., 2., 0.]}, id='x1'),
+                 _s('S', 0, phase='s', flow=[4., 0., 0.], T=350.5, id='x2')],
+     'ops': [['copy_like', 0, 1]], 'rx': _RX},
+    # 4 MultiStream.copy_like(MultiStream with other phases): rows copied by position
+    {'streams': [_s('M', 0, phases=['g', 'l', 's'], flows={'g': [1., 0., 0.], 'l': [0., 2., 0.], 's': [0., 0., 3.]}, id='x1'),
+                 _s('M', 0, phases=['l', 's'], flows={'l': [4., 0., 0.], 's': [0., 8., 0.]}, T=350.5, id='x2')],
+     'ops': [['copy_like', 0, 1]], 'rx': _RX},
+    {'streams': [_s('M', 1, phases=['g', 'l'], flows={'g': [1., 0., 0., 0.]}, id='x1'),
+                 _s('M', 0, phases=['l', 's'], flows={'l': [4., 0., 1.], 's': [0., 8., 0.]}, T=350.5, id='x2')],
+     'ops': [['copy_like', 0, 1]], 'rx': _RX},
+    # 5 compatible phase sets, other package: rows added by position
+    {'streams': [_s('M', 1, phases=['L'], flows={}, id='x1'),
+                 _s('M', 0, phases=['l'], flows={'l': [4., 0., 1.]}, T=350.5, id='x2')],
+     'ops': [['copy_like', 0, 1]], 'rx': _RX},
+    # 6 Stream.copy_like(MultiStream lacking the stream's phase): UndefinedPhase, object left half converted
+    {'streams': [_s('S', 0, phase='s', flow=[1., 0., 0.], id='x1'),
+                 _s('M', 0, phases=['g', 'l'], flows={'g': [1., 0., 0.], 'l': [0., 2., 0.]}, T=350.5, id='x2')],
+     'ops': [['copy_like', 0, 1]], 'rx': _RX},
+    # 7 set_data / from_data / pickle of a one-phase MultiStream: AttributeError
+    {'streams': [_s('M', 0, phases=['g'], flows={'g': [1., 0., 2.]}, id='x1'), _s('S', 0, phase='l', flow=[1., 0., 0.], id='x2')],
+     'ops': [['reduce', 0]], 'rx': _RX},
+    # 8 MultiStream.proxy(): AttributeError (no `equations`)
+    {'streams': [_s('M', 0, phases=['g', 'l'], flows={'g': [1., 0., 2.]}, id='x1'), _s('S', 0, phase='l', flow=[1., 0., 0.], id='x2')],
+     'ops': [['proxy', 0], ['set_flow', 2, 0, 1, 8.], ['set_T', 0, 310.]], 'rx': _RX},
+]
+# witness of C13_unlink_sep_refuted (coq/C13/Props.v): a proxy holds the same indexer object, unlink does not replace it
+WITNESSES = [{'key': 'C13:unlink-after-proxy',
+              'case': {'streams': [_s('S', 0, phase='l', flow=[1., 0., 2.], id='x1')],
+                       'ops': [['proxy', 0], ['unlink', 0]], 'rx': _RX}}]
